@@ -1,3 +1,4 @@
+import subprocess
 from typing import Optional
 from conductor.utils.output_handler import OutputHandler
 
@@ -16,6 +17,12 @@ class OperationExecutionHandle:
         self.stderr: Optional[OutputHandler] = None
         self.returncode: Optional[int] = None
         self.slot: Optional[int] = None
+        # The `Popen` object of an asynchronously executing process. We hold on
+        # to it for as long as the process is in flight: if it were garbage
+        # collected earlier, `Popen.__del__()` (and later `subprocess._cleanup()`)
+        # would `waitpid()` on the child itself and could consume the exit
+        # status that `SigchldHelper` is waiting for.
+        self.process: Optional[subprocess.Popen] = None
 
     @classmethod
     def from_async_process(cls, pid: int):
